@@ -149,7 +149,18 @@ def c_index(eng, st, fr, f, args, site):
         return None
     rb = range_bounds(eng, st, args[1], vw["len"])
     desc = describe_range(eng, site, None)
-    is_str = "String" in f["path"] or "for str" in f["path"]
+    pp_ = f["path"] + " " + str(f.get("resolved") or "")
+    is_str = "String" in pp_ or "for str" in pp_ or "str::traits" in pp_ or (vw.get("cont") is not None and getattr(vw["cont"], "kind", "") == "string")
+    if not is_str:
+        # the receiver's static type decides: `&str` / `String` indexed by a range needs char boundaries
+        try:
+            a0 = site["term"]["args"][0]
+            pl_ = a0.get("c") or a0.get("m")
+            if pl_ is not None:
+                ts_ = eng.T.s(eng.place_ty(site["fr"], pl_) or 0)
+                is_str = bool(re.match(r"^&(mut )?(str|(std|alloc)::string::String)$", ts_))
+        except Exception:
+            pass
     if rb is None:
         eng.obligation(site["fr"], site["blk"], "Index", desc, False, need="unrecognised range", st=st)
         return None
